@@ -21,7 +21,8 @@ RULE = ('all binary tree shapes with 2..6 (quick) / 2..8 (thorough) leaves '
         'sibling byte, swap two levels, drop a level, splice foreign leaf, '
         'replace leaf by `true`}; pack/unpack of every tree. distinct = by '
         '(tree shape, leaf index, corruption, bytes); non-trivial = tree depth '
-        '>= 2 or a corruption case')
+        '>= 2 or a corruption case'
+        ' [plus leaves padded to exactly 20/31/32/33/64/65/128/255/256/257 bytes, non-default unequal limits, configuration-sensitive leaf bodies judged a second time under a non-default configuration, and for builder trees a foreign leaf below a self-paired (root 00..00) node at every revealed sibling position]')
 ASSUMPTIONS = [
     'sibling commitments differ (leaf scripts of one tree are pairwise '
     'different: each carries its own beacon id)',
